@@ -24,6 +24,7 @@ CONSTANTS
   MaxSetSeq = 0
   MaxShots = 0
   OvfFirstInOpen = TRUE
+  HugeSeals = FALSE
   RecordHist = TRUE
 VIEW ParView
 ACTION_CONSTRAINT CheckLast
